@@ -169,6 +169,7 @@ func runCase(t *rapid.T, c caseT) {
 	}
 	started := make(chan struct{}, len(c.Msgs))
 	release := make(chan struct{})
+	releaseOf := map[string]chan struct{}{} // per message: lets the harness finish one invocation while the others are held
 
 	// outermost recorder: registered first at router level => outermost
 	router.AddMiddleware(func(h message.HandlerFunc) message.HandlerFunc {
@@ -191,9 +192,13 @@ func runCase(t *rapid.T, c caseT) {
 		mu.Unlock()
 		if c.Barrier {
 			started <- struct{}{}
+			mu.Lock()
+			own := releaseOf[tag]
+			mu.Unlock()
 			select {
 			case <-release:
-			case <-time.After(5 * time.Second):
+			case <-own:
+			case <-time.After(4 * lib.Live): // safety net only: far beyond every bound the harness waits for while it holds handlers
 			}
 		}
 		pad(b.Pad)
@@ -369,6 +374,7 @@ func runCase(t *rapid.T, c caseT) {
 		mu.Lock()
 		deliveries[tag] = d
 		cancels[tag] = cancel
+		releaseOf[tag] = make(chan struct{})
 		mu.Unlock()
 		dd, ok := s.Emit(m, tag, 0, lib.Live)
 		if !ok {
@@ -390,6 +396,18 @@ func runCase(t *rapid.T, c caseT) {
 			}
 		}
 		inFlight = got
+		// a message is settled when ITS handling is over, however long the messages that arrived before it still take:
+		// finish the most recent one first and wait for its settlement while every earlier invocation is still held
+		if got == len(c.Msgs) && got >= 2 && c.CancelMid < 0 {
+			last := ds[len(ds)-1]
+			mu.Lock()
+			close(releaseOf[last.Tag])
+			mu.Unlock()
+			if _, ok := last.Wait(lib.Live); !ok {
+				close(release)
+				t.Fatalf("violation: message %s (%s) finished its handling but was not settled within %v while %d earlier messages of the handler were still being handled", last.Tag, behavOf(last.Tag), lib.Live, got-1)
+			}
+		}
 		close(release)
 	}
 
